@@ -62,10 +62,22 @@ READS = ("get", "getd", "getitem", "in", "has_key", "len", "bool", "iter",
          "keys", "values", "items", "minKey", "maxKey", "range")
 
 
-def _txn(rng, g, nkeys, nvals, mapping):
+def _txn(rng, g, nkeys, nvals, mapping, focus=None):
     out = []
     for _ in range(rng.choice([1, 1, 2, 2, 3, 4])):
         r = rng.random()
+        if focus is not None and r < 0.75:
+            # all clients work on the same leaf: leaf-level merges
+            m = rng.random()
+            if m < 0.4:
+                out.append(["@leaf_ins", focus, rng.randrange(8),
+                            rng.randrange(nvals)])
+            elif m < 0.7 and mapping:
+                out.append(["@leaf_set", focus, rng.randrange(8),
+                            rng.randrange(nvals)])
+            else:
+                out.append(["@leaf_del", focus, rng.randrange(8)])
+            continue
         if r < 0.16:
             out.append(["@leafmin_del", rng.randrange(64)])
         elif r < 0.30:
@@ -132,7 +144,9 @@ def plan(rng, tier):
                     g.model.apply(op)
                     base.append(op)
     n = 2 if tier == "quick" or rng.random() < 0.6 else 3
-    txns = [_txn(rng, g, dom.nkeys, dom.nvals, mapping) for _ in range(n)]
+    focus = rng.randrange(64) if rng.random() < 0.4 else None
+    txns = [_txn(rng, g, dom.nkeys, dom.nvals, mapping, focus)
+            for _ in range(n)]
     order = list(range(n))
     rng.shuffle(order)
     return {"cfg": cfg, "base": base, "txns": txns, "order": order,
@@ -180,6 +194,19 @@ def _resolve_symbolic(txn, base_walk, dom, mapping, model_d):
             if cand:
                 out.append(["set", cand[0], op[2]] if mapping
                            else ["add", cand[0]])
+        elif name == "@leaf_ins":
+            j = op[1] % len(leaves)
+            hi = leaves[j + 1][0] if j + 1 < len(leaves) else dom.nkeys
+            lo = leaves[j - 1][-1] + 1 if j > 0 else 0
+            cand = [k for k in range(lo, hi) if k not in model_d]
+            if cand:
+                k = cand[op[2] % len(cand)]
+                out.append(["set", k, op[3]] if mapping else ["add", k])
+        elif name == "@leaf_set":
+            out.append(["set", lf[op[2] % len(lf)], op[3]])
+        elif name == "@leaf_del":
+            out.append(["del" if mapping else "remove",
+                        lf[op[2] % len(lf)]])
         elif name == "@leaf_empty":
             for k in lf:
                 out.append(["del" if mapping else "remove", k])
